@@ -285,6 +285,52 @@ def inline_index_helpers(fn, relpath, cls):
     return g, done
 
 
+def inline_value_helpers(fn, relpath, cls):
+    """Refactoring tolerance: a statement `x = helper(a1, ...);` where `helper` is a member function of the same class that takes scalar by-value parameters and whose body
+    ends with its only `return E;` is replaced by `{ T p1 = a1; ... <body>; x = E; }` with the parameters renamed (they may be assigned in the helper, so each becomes a fresh
+    local).  Arguments must be side-effect free.  Returns (Func, [names])."""
+    import copy
+    done = []
+    body = fn.body
+    for m in list(re.finditer(r"(?<![\w.>])(\w+)\s*=\s*(\w+)\(([^;()]*)\);", body)):
+        tgt, nm = m.group(1), m.group(2)
+        try:
+            h = locate(relpath, nm, cls=cls)
+        except ExtractionBreak:
+            continue
+        hb = h.body.strip()
+        r = re.search(r"\breturn\b\s*([^;]*);\s*$", hb)
+        if not r or len(re.findall(r"\breturn\b", hb)) != 1:
+            continue
+        args = [a.strip() for a in split_top(m.group(3))] if m.group(3).strip() else []
+        pars = [a.strip() for a in split_top(h.params)] if h.params.strip() else []
+        if len(args) != len(pars) or any(not re.match(r"^[\w.>\-]+$", a) for a in args):
+            continue
+        decl = []
+        inner = hb[:r.start()]
+        ret = r.group(1)
+        ok = True
+        for par, a in zip(pars, args):
+            pm = re.match(r"^(?:const\s+)?(Index|int|Scalar|RealScalar|bool)\s+(\w+)$", par)
+            if not pm:
+                ok = False
+                break
+            fresh = "%s__%s" % (pm.group(2), nm)
+            decl.append("%s %s = %s;" % (pm.group(1), fresh, a))
+            pat = r"(?<![\w.>])%s\b" % re.escape(pm.group(2))
+            inner = re.sub(pat, fresh, inner)
+            ret = re.sub(pat, fresh, ret)
+        if not ok:
+            continue
+        body = body.replace(m.group(0), "{ " + " ".join(decl) + " " + " ".join(inner.split("\n")) + " %s = %s; }" % (tgt, ret), 1)
+        done.append(nm)
+    if not done:
+        return fn, done
+    g = copy.copy(fn)
+    g.body = body
+    return g, done
+
+
 def members(relpath, cls, key=None, cls_ordinal=0):
     """Names of data members declared directly in the class body (depth 0), by regex on
     declarations `Type name;` / `Type name = init;`."""
